@@ -666,7 +666,13 @@ impl rustc_driver::Callbacks for Cb {
                 .opt_parent(def.to_def_id())
                 .map(|p| tcx.def_path_str(p))
                 .unwrap_or_default();
+            let mut promoted = Vec::new();
+            for (_pi, pbody) in tcx.promoted_mir(def.to_def_id()).iter_enumerated() {
+                let pex = Ex { tcx, body: pbody, def };
+                promoted.push(pex.body_json());
+            }
             fns.push(J::O(vec![
+                ("promoted", J::A(promoted)),
                 ("id", s(tcx.def_path_str(def.to_def_id()))),
                 ("kind", s(format!("{kind:?}"))),
                 ("unsafe", J::B(is_unsafe)),
